@@ -38,6 +38,16 @@ def bcastRev : List Nat → List Nat → Option (List Nat)
 def broadcastShapes? (a b : List Nat) : Option (List Nat) :=
   (bcastRev a.reverse b.reverse).map List.reverse
 
+/-- size of dimension `i` counted from the innermost one; missing (leading) dimensions count as 1 -/
+def dimAt (l : List Nat) (i : Nat) : Nat := l.getD i 1
+
+/-- numpy/torch broadcasting rule as a *relation* on reversed shapes (independent of the recursive `bcastRev`):
+the result has the longer rank; at every position the sizes agree or one of them is 1, and the result takes the non-1 size. -/
+def BroadcastRel (a b s : List Nat) : Prop :=
+  s.length = max a.length b.length ∧
+  ∀ i, i < s.length → (dimAt a i = dimAt b i ∨ dimAt a i = 1 ∨ dimAt b i = 1) ∧
+    dimAt s i = if dimAt a i = 1 then dimAt b i else dimAt a i
+
 /-- Shape of `torch.matmul(a, b)` after the documentation of torch.matmul: 0-d operands are
 rejected; a 1-d first operand gets a leading 1 (removed afterwards), a 1-d second operand a trailing
 1 (removed afterwards); inner dimensions must agree; batch dimensions broadcast. -/
